@@ -178,6 +178,9 @@ def corruptions(tier):
         # a file that includes itself ({self} = its own name): it has no finite expansion and cannot be parsed
         "include-itself": "module zq\n  integer :: x\n  include '{self}'\nend module zq\n",
         "include-itself-twice": "module zq\n  include '{self}'\n  integer :: x\n  include '{self}'\nend module zq\n",
+        # prose with an apostrophe and a semicolon in one "statement"; a literal left open on a line that goes on after a `;`
+        "prose-apostrophe-semicolon": "This file isn't Fortran; it is a note to self\nand it's long; very long\n",
+        "open-literal-semicolon": "module zq\n  character(5) :: s = 'abc ; integer :: k\nend module zq\n",
         "binary": bytes(range(256)) * 4,
         "long-line-quote": "x = '" + "a" * 200 + "\n",
         "many-quotes": ("'" * 61 + "\n") * 2,
